@@ -11,11 +11,23 @@ BUDGET_S = {'quick': 80, 'thorough': 1200}
 RULE = ('(spike_templates, spike_clusters) produced by random merge / split / reassign sequences (empty ids, '
         'one-spike clusters, count ties), dense small-integer templates, geometries with and without shanks, '
         'with/without (diagonal dyadic) whitening, plus un-curated datasets incl. a last template without '
-        'spikes. One case = one loaded TemplateModel. non-trivial = curated dataset with a cluster stemming '
+        'spikes; a quarter of the datasets on a probe-like layout of 16..20 sites (20..100 um pitch) whose coordinates '
+        'are stored in every integer dtype (int8 .. uint64) or as floats, the neighbourhood (default 12) smaller than '
+        'the probe. One case = one loaded TemplateModel. non-trivial = curated dataset with a cluster stemming '
         'from >= 2 templates')
-ASSUMPTIONS = ['the channel list of each template (get_template(t).channel_ids, property C05) is observed on the real '
-               'model and given to the Lean model as input',
-               'weighted means: integer sums, one correctly rounded division (compared through Fraction)']
+ASSUMPTIONS = ['the channel list of each template (get_template(t).channel_ids, property C05; whitened for the load-time '
+               'cluster waveforms, unwhitened for the public accessor) is observed on the real model, checked with the C05 '
+               'model (whole record: channels, columns, amplitudes, against the configured neighbourhood / threshold) and '
+               'only then given to the C08 model; the unwhitened waveforms are computed by the C05 model from the stored '
+               'templates, the inverse whitening matrix (checked against the stored matrices) and template_scaling',
+               'load-time cluster waveforms of clusters stemming from >= 2 templates: |real - exact| <= 2^-18 max(1, |exact|) '
+               '(DESIGN 3, multi-step float chain); single-template and empty clusters: exact equality',
+               'public accessor: integer sums, one correctly rounded division (compared through Fraction, rtol 1e-9)']
+
+
+def _rec(b):
+    return dict(template=np.asarray(b.template, dtype=np.float64).tolist(), channels=[int(c) for c in b.channel_ids],
+                amplitude=np.asarray(b.amplitude, dtype=np.float64).tolist(), best=int(b.best_channel))
 
 
 def impl(case):
@@ -28,15 +40,10 @@ def impl(case):
                        nan_idx=[int(x) for x in np.asarray(m.nan_idx).ravel()],
                        data=np.asarray(m.sparse_clusters.data, dtype=np.float64).tolist(),
                        same_object=m.sparse_clusters is m.sparse_templates,
-                       chans_w=[[int(c) for c in m.get_template(t, unwhiten=False).channel_ids] for t in range(nt)],
-                       recs_w=[(lambda b: dict(template=np.asarray(b.template, dtype=np.float64).tolist(),
-                                               channels=[int(c) for c in b.channel_ids],
-                                               amplitude=np.asarray(b.amplitude, dtype=np.float64).tolist(),
-                                               best=int(b.best_channel)))(m.get_template(t, unwhiten=False)) for t in range(nt)],
+                       recs_w=[_rec(m.get_template(t, unwhiten=False)) for t in range(nt)],
+                       recs_u=[_rec(m.get_template(t, unwhiten=True)) for t in range(nt)],
                        n_closest=int(m.n_closest_channels), thr=float(m.amplitude_threshold),
-                       wmi=np.asarray(m.wmi, dtype=np.float64).tolist(),
-                       chans_u=[[int(c) for c in m.get_template(t, unwhiten=True).channel_ids] for t in range(nt)],
-                       tmpl_u=[np.asarray(m._unwhiten(m.sparse_templates.data[t]).astype(np.float32), dtype=np.float64).tolist() for t in range(nt)])
+                       wmi=np.asarray(m.wmi, dtype=np.float64).tolist())
             means = {}
             for c in case.get('cs', []):
                 if c in m.spike_clusters:
@@ -61,20 +68,40 @@ def model_query(case, impl_res):
         return dict(p=PID, op='clusters', W=W, chans=[list(range(spec['n_channels']))] * len(W), st=st, sc=sc,
                     ns=len(W[0]), nc=spec['n_channels'])
     ok = impl_res['ok']
-    # the per-template channel lists the cluster means are restricted to are C05's: checked with the C05
-    # model (predicate on the real records) instead of being taken on trust from the model under test
+    # the per-template channel lists the cluster means are restricted to are C05's: checked with the C05 model
+    # (predicate on the real records, whitened AND unwhitened) instead of being taken on trust from the model under
+    # test; neighbourhood size and threshold are the CONFIGURED ones (params.py), not those the loaded object shows
+    px = spec.get('params_extra') or {}
+    n_closest = int(px.get('n_closest_channels', 12))
+    thr = px.get('amplitude_threshold', 0)
+    scaling = DC.frac(float(spec.get('template_scaling') or 1.))
+    wmi = DC.fracs(ok['wmi'])
     dense = []
     if spec.get('template_ind') is None:
-        for t, rec in enumerate(ok['recs_w']):
-            dense.append(dict(p='C05', op='dense', wmi=DC.fracs(ok['wmi']), Tw=DC.fracs(spec['templates'][t]), unwhiten=False,
-                              positions=DC.fracs(spec['channel_positions']), shanks=spec.get('channel_shanks'),
-                              n_closest=ok['n_closest'], thr=DC.frac(ok['thr']), explicit=None,
-                              impl=dict(template=DC.fracs(rec['template']), channels=rec['channels'],
-                                        amplitude=DC.fracs(rec['amplitude']), best=rec['best'])))
-    return dict(p='C08', op='clusters', W=W, chans=ok['chans_w'], st=st, sc=sc, ns=len(W[0]), nc=spec['n_channels'],
+        for unwh, recs in ((False, ok['recs_w']), (True, ok['recs_u'])):
+            for t, rec in enumerate(recs):
+                dense.append(dict(p='C05', op='dense', wmi=wmi, scaling=scaling, Tw=DC.fracs(spec['templates'][t]), unwhiten=unwh,
+                                  positions=DC.fracs(spec['channel_positions']), shanks=spec.get('channel_shanks'),
+                                  n_closest=n_closest, thr=DC.frac(thr), explicit=None,
+                                  impl=dict(template=DC.fracs(rec['template']), channels=rec['channels'],
+                                            amplitude=DC.fracs(rec['amplitude']), best=rec['best'])))
+    return dict(p='C08', op='clusters', W=W, chans=[r['channels'] for r in ok['recs_w']], st=st, sc=sc, ns=len(W[0]), nc=spec['n_channels'],
                 _second=dict(p='C08', op='multi', qs=[
-                    dict(p='C08', op='cluster_mean', W=DC.fracs(ok['tmpl_u']), chans=ok['chans_u'], st=st, sc=sc,
+                    # the public accessor averages the UNWHITENED templates: computed by the Lean model of _unwhiten from
+                    # the stored templates (nothing of the real _unwhiten output enters the model side)
+                    dict(p='C08', op='cluster_mean', W=W, unwhiten=dict(wmi=wmi, scaling=scaling),
+                         chans=[r['channels'] for r in ok['recs_u']], st=st, sc=sc,
                          cs=[int(c) for c in ok['means']])] + dense))
+
+
+TOL32 = 2.0 ** -18        # DESIGN 3: multi-step float chain, float32 path
+
+
+def _close(got, exact_q):
+    """|got - exact| <= 2^-18 max(1, |exact|), entry by entry (exact = model rationals)"""
+    e = np.array([[float(DC.to_fraction(x)) for x in row] for row in exact_q], dtype=np.float64)
+    g = np.asarray(got, dtype=np.float64)
+    return g.shape == e.shape and bool(np.all(np.abs(g - e) <= TOL32 * np.maximum(1., np.abs(e))))
 
 
 def judge(case, impl_res, ans):
@@ -88,6 +115,9 @@ def judge(case, impl_res, ans):
     spec = case['spec']
     st = spec['spike_templates']
     sc = spec.get('spike_clusters') or st
+    bad = DC.check_wmi(spec, ok['wmi'])
+    if bad:
+        return 'SPEC: ' + bad
     if m['merge_map'] != m['merge_map_spec']:
         return 'MACHINERY: model merge map differs from its spec (contradicts the theorem)'
     curated = sc != st
@@ -106,33 +136,42 @@ def judge(case, impl_res, ans):
             return 'SPEC: ids without spikes %s, reported empty %s' % (m['nan_idx'], ok['nan_idx'])
         if ok['n_clusters'] != m['n_clusters']:
             return 'SPEC: n_clusters %d' % ok['n_clusters']
-        exp = [[[DC.to_float(x) for x in row] for row in M] for M in m['data']]
-        if ok['data'] != exp:
-            for c, (a, b) in enumerate(zip(ok['data'], exp)):
-                if a != b:
-                    n = len(m['merge_map'][c])
-                    return ('SPEC: cluster %d (stemming from %d template(s)) does not carry %s' % (
-                        c, n, 'that template\'s waveform unchanged' if n == 1 else
-                        'the spike-count-weighted mean of its templates on the dominant template\'s channels'))
+        if len(ok['data']) != len(m['data']):
             return 'SPEC: cluster waveforms shape'
+        for c, (a, M) in enumerate(zip(ok['data'], m['data'])):
+            n = len(m['merge_map'][c])
+            if n >= 2:
+                # a mean computed in floating point: any algebraically equal way of writing it is accepted
+                good = _close(a, M)
+            else:
+                good = a == [[DC.to_float(x) for x in row] for row in M]
+            if not good:
+                return ('SPEC: cluster %d (stemming from %d template(s)) does not carry %s' % (
+                    c, n, 'that template\'s waveform unchanged' if n == 1 else 'zeros' if n == 0 else
+                    'the spike-count-weighted mean of its templates on the dominant template\'s channels'))
     # public accessor with unwhitening
     if 'err' in ans.get('second', {}):
         return 'MACHINERY: driver error in the second query: %s' % ans['second']['err']
     m2 = ans.get('second', {}).get('ok')
     if m2 is not None:
-        for t, r in enumerate(m2['res'][1:]):
+        nt = len(ok['recs_w'])
+        for k, r in enumerate(m2['res'][1:]):
+            t, unwh = k % nt, k >= nt
             if 'err' in r:
                 return 'MACHINERY: driver error in the channel-list query of template %d: %s' % (t, r['err'])
             if r.get('impl_spec') is not True:
-                return ('SPEC: the channel list of template %d (%s) is not the nearest same-shank channels reaching the '
-                        'threshold, ordered by amplitude (C05), so cluster means are restricted to wrong channels' % (t, ok['recs_w'][t]['channels']))
+                return ('SPEC: the %s record of template %d (channels %s) is not the %stemplate on the nearest same-shank channels '
+                        'reaching the threshold, ordered by amplitude (C05), so cluster means are restricted to wrong channels / '
+                        'built from wrong waveforms' % ('unwhitened' if unwh else 'whitened', t,
+                                                        (ok['recs_u'] if unwh else ok['recs_w'])[t]['channels'],
+                                                        'unwhitened ' if unwh else ''))
         if 'err' in m2['res'][0]:
             return 'MACHINERY: driver error in the cluster-mean query: %s' % m2['res'][0]['err']
         m2 = m2['res'][0]
         for (c, got), mm in zip(ok['means'].items(), m2['means']):
             if mm['from_spikes'] != mm['dominant']:
                 return 'MACHINERY: the two dominant-template rules of the model differ (contradicts clusterTemplate_eq_dominant)'
-            if got['cluster_channels'] != ok['chans_u'][mm['from_spikes']]:
+            if got['cluster_channels'] != ok['recs_u'][mm['from_spikes']]['channels']:
                 return ('SPEC: get_cluster_channels(%s) are not the channels of the dominant template %d (lowest id among the '
                         'templates with the most spikes in the cluster)' % (c, mm['from_spikes']))
             if got['channels'] != mm['channels']:
@@ -157,6 +196,9 @@ def tally(rep, case, impl_res, ans):
     spec = case['spec']
     rep.count('curated:%s' % (spec.get('spike_clusters') is not None and spec['spike_clusters'] != spec['spike_templates']))
     rep.count('shanks:%s' % (spec.get('channel_shanks') is not None))
+    rep.count('positions_dtype:%s%s' % ((spec.get('dtypes') or {}).get('channel_positions', 'float64'),
+                                       ', probe layout' if spec.get('_probe_layout') else ''))
+    rep.count('n_closest_channels:%s' % (spec.get('params_extra') or {}).get('n_closest_channels', '12 (default)'))
     if len(spec['templates']) > 256:
         rep.count('more_than_256_templates, template ids stored as %s' % (spec.get('dtypes') or {}).get('spike_templates', 'uint32'))
     for name in sorted(spec.get('extra_npy') or {}):
@@ -171,10 +213,25 @@ def classify(case, impl_res, ans, why):
     return dict(kind=why.split(':')[0], what=why.split(':')[1].strip()[:45], raised=impl_res.get('raised'))
 
 
+def shrink(case):
+    if len(case.get('cs') or []) > 1:
+        for c in case['cs']:
+            yield dict(case, cs=[c])
+
+
 def gen(tier, rng):
     q = tier == 'quick'
     for i in range(250 if q else 5000):
-        spec = DC.dense_spec(rng, curated=(i % 5 != 0), feats=False, empty=['none', 'last', 'random'][i % 3])
+        probe = i % 4 == 1
+        spec = DC.dense_spec(rng, curated=(i % 5 != 0), feats=False, empty=['none', 'last', 'random'][i % 3],
+                             nc=rng.pick([16, 16, 20]) if probe else None, nt=rng.randrange(2, 5) if probe else None)
+        if probe:
+            # a probe longer than the neighbourhood, coordinates stored as (small) integers or floats: the channel lists
+            # the load-time cluster waveforms are restricted to depend on distances between the sites
+            pdt = rng.pick(list(DC.INT_POSITION_DTYPES) + ['int16', 'uint16', 'float32', 'float64'])
+            spec['channel_positions'] = DC.probe_positions(rng, spec['n_channels'], pdt)
+            spec['dtypes'] = dict(spec.get('dtypes') or {}, channel_positions=pdt)
+            spec['_probe_layout'] = True
         sc = spec.get('spike_clusters') or spec['spike_templates']
         yield dict(p=PID, spec=spec, cs=sorted(set(sc))[:6], reopen=(i % 4 == 2))
     # many templates and many curated ids, template ids stored in a narrow dtype the loader accepts (uint16 / int32):
